@@ -12,10 +12,12 @@
                               Set<F>() of optional composites, Set<F>(dictionary struct, frozen or not),
                               SetType, Set<Alt>, EnsureLen / Append / CopyFromSlice of arrays, Append of
                               structs (shared or copied), EnsureLen / SetKey / SetValue / Append of multimaps,
-                              at any nested path.
-    copyFrom_preserves_sound_partial   the same for CopyFrom(src) (copy<T> of structs, oneofs, arrays and
-                              multimaps, any source and destination state) when the schema has no
-                              dictionary struct.
+                              CopyFrom, at any nested path.
+    copyFrom_preserves_sound  the instance for CopyFrom(src) (copy<T> of structs, oneofs, arrays and
+                              multimaps, any source and destination state), EVERY schema: dictionary
+                              structs included (shared frozen children assigned by reference, owned
+                              children copied into, shared destination children replaced by an owned
+                              copy first - `unshare` -, stale hidden values of absent optional fields).
     write_sound               sound marks make `SpecEnc.encodeNode` return an effective value - what the
                               reader holds afterwards (`C01Enc.encode_decode_node`) - that SHOWS exactly
                               the record written; the record is left in sync with it and unmarked, the
@@ -25,15 +27,20 @@
     tree_ok                   the decoder tree `Spec.mkNode` builds for the writer's own schema satisfies
                               the side conditions of `write_sound`.
     new_record_in_sync        `Init()` and the reader's initial value are in sync.
-    api_marks_sound_partial   every Write of every history of the calls above, over any number of frames
+    api_marks_sound           every Write of every history of the calls above, over any number of frames
                               with any restart flags: the effective records of `SpecEnc.encodeFrames` show
                               the records written, one by one.
-    api_stream_roundtrip_partial   ... hence `Spec.decodeStream` applied to the bytes of `SpecEnc.encodeStream`
+    api_stream_roundtrip      ... hence `Spec.decodeStream` applied to the bytes of `SpecEnc.encodeStream`
                               returns, without error, records that show exactly the records written.
-  `_partial`: histories must be `Covered`: no CopyFrom, or a schema without dictionary structs (with
-  them, copy<T> replaces shared / frozen destination children by copies - `unshare` - and compares
-  dictionary values; modelled and tied to the code, not proved); in-place modification of a dictionary
-  struct reached through a getter is outside the model (navigation into it is refused).
+  No hypothesis on the calls or the schema is left (the former `_partial` theorems with their hypothesis
+  `Covered` / `C.NoDict` are gone). In-place modification of a dictionary struct reached through a getter
+  is outside the model (navigation into it is refused).
+
+  The invariant: `Snd C W R?` = the marks of `W` are sound against the reader value - whatever is not
+  marked is in sync with the reader and has no marks below, whatever is marked is sound recursively; an
+  OWNED dictionary struct (written by value) has UP-CLOSED marks (`UC`: no mark below an unmarked bit), so
+  that a copy into it signals its parent and `setUnmodifiedRecursively` clears it; a SHARED (frozen) one is
+  exempt; the stale hidden value of an absent optional field is up-closed too (Stef/Proofs/ApiInv.lean).
 
   `Shows C W r`: the reader value `r` shows exactly the visible value of the record state `W`
   (presence bits, oneof choice, element order, every primitive bit for bit; the stale contents of
@@ -48,18 +55,22 @@ open Stef Stef.Spec Stef.SpecEnc Stef.Api
 /-- **call_preserves_sound**: one public API call (path + method + arguments) on a record whose marks
     are sound against the reader's value leaves them sound. `R = none`: nothing is known about the
     reader's value (everything visible is marked). -/
-theorem call_preserves_sound (C : Ctx) (path : List Step) (op : Op) (hop : op.isCopy = false) (w w' : AS)
+theorem call_preserves_sound (C : Ctx) (path : List Step) (op : Op) (w w' : AS)
     (R : Option St) (hroot : C.isDictNode w = false) (h : call C path op w = .ok w') (hs : Snd C w R) : Snd C w' R :=
-  call_snd C path op hop w w' R hroot h hs
+  call_snd C path op w w' R hroot h hs
 
-/-- **copyFrom_preserves_sound_partial**: `CopyFrom(src)` at any path (destination: struct, oneof or
-    multimap, arrays inside them included), any source state, any destination state. Missing for the
-    full statement: schemas with dictionary structs (`C.NoDict`; there a shared or frozen destination
-    child is replaced by a copy, `unshare`, which is modelled and tied to the code but not proved). -/
-theorem copyFrom_preserves_sound_partial (C : Ctx) (hnodict : C.NoDict) (path : List Step) (src w w' : AS)
+/-- **copyFrom_preserves_sound**: `CopyFrom(src)` at any path (destination: struct, oneof or multimap,
+    arrays inside them included), any source state, any destination state, any schema - dictionary
+    structs included. -/
+theorem copyFrom_preserves_sound (C : Ctx) (path : List Step) (src w w' : AS)
     (R : Option St) (hroot : C.isDictNode w = false) (h : call C path (.copyFrom src) w = .ok w') (hs : Snd C w R) :
     Snd C w' R :=
-  call_snd' C path (.copyFrom src) (Or.inr hnodict) w w' R hroot h hs
+  call_snd C path (.copyFrom src) w w' R hroot h hs
+
+/-- the copy itself: `copy<T>(dst, src)` preserves soundness against every reader value, up-closedness,
+    and - when it sends no signal to the parent - leaves a destination without marks in sync -/
+theorem copy_preserves (C : Ctx) (dst src : AS) : Pres C dst (C.copy dst src).1 (C.copy dst src).2 :=
+  copy_pres C dst src
 
 /-- **write_sound**: `writeNode` (the mark tree of `Write()`) on a record with sound marks, encoded by
     the proved encoder against the reader's value `R`: the effective value shows the record, the
@@ -72,7 +83,8 @@ theorem write_sound (C : Ctx) (fuel : Nat) (env : List (String × Node)) (n : No
     Shows C W' eff ∧ Quiet C W' ∧ Snd C W' (some eff) ∧ DictOk C s'.wd ds'.tdict ∧
       decodeNode C.σ fuel env n R (feed evs ds) = .ok (eff, ds') := by
   obtain ⟨h1, h2, h3⟩ := writeNode_sound C fuel env n W s mk W' s' (some R) R ds evs ds' eff hw henc (compat_some R) hs hok henv hd
-  exact ⟨h1, h2, snd_of_sync C W' eff h1 h2, h3, C01Enc.encode_decode_node C.σ fuel env n R (vis C W) mk ds evs ds' eff henc⟩
+  exact ⟨h1, h2, snd_of_sync C false W' eff h1 h2 (writeNode_uc C fuel env n W s mk W' s' (some R) hw hs hok henv h2), h3,
+    C01Enc.encode_decode_node C.σ fuel env n R (vis C W) mk ds evs ds' eff henc⟩
 
 /-- **write_keeps_value**: `Write()` does not change the record: the state it leaves (marks cleared,
     dictionary structs unmarked / marked in full) has the visible value it was called on. -/
@@ -98,38 +110,34 @@ theorem tree_ok (C : Ctx) (fuel : Nat) (ty : Ty) (n : Node) (b : Build) (h : mkN
 theorem new_record_in_sync (C : Ctx) (ty : Ty) :
     Shows C (C.init ty) (initSt C.σ initFuel ty) ∧ Quiet C (C.init ty) ∧ Snd C (C.init ty) (some (initSt C.σ initFuel ty)) := by
   obtain ⟨h1, h2⟩ := init_sync C initFuelA ty
-  exact ⟨h1, h2, snd_of_sync C _ _ h1 h2⟩
+  exact ⟨h1, h2, snd_of_sync C false _ _ h1 h2 (uc_init C ty)⟩
 
-/-- **api_marks_sound_partial**: a whole history - per frame its restart flags and per record the API
+/-- **api_marks_sound**: a whole history - per frame its restart flags and per record the API
     calls made since the previous Write - on a record of root type `name` that starts with marks sound
     against the reader's value `R`: whatever `SpecEnc.encodeFrames` makes of the values and marks the
-    model's Writes hand over, its effective records show the records written, one by one.
-    Missing for the full statement: histories with CopyFrom over a schema with dictionary structs
-    (`Covered`: every call is not a CopyFrom, or `C.NoDict`). -/
-theorem api_marks_sound_partial (C : Ctx) (col : Nat) (name : String) (dict : Option String) (kept oc : Nat)
+    model's Writes hand over, its effective records show the records written, one by one. -/
+theorem api_marks_sound (C : Ctx) (col : Nat) (name : String) (dict : Option String) (kept oc : Nat)
     (fields : List (Bool × Node)) (hroot : NodeOk C (.struct col name dict kept oc fields)) (hnd : C.isDictName name = false)
     (frames : List (Nat × List Calls)) (ins : List FrameIn) (m p : Nat) (fr : Bool) (fs : List AS) (s : WSt) (R : St) (ds : DS)
     (ms : List (Nat × List (St × Mk))) (wss : List (List AS)) (W' : AS) (s' : WSt) (evss : List (List Ev)) (ds' : DS)
     (effss : List (List St))
-    (hnc : ∀ f ∈ frames, ∀ cs ∈ f.2, Covered C cs)
     (hrun : runFrames C (.struct col name dict kept oc fields) frames (.struct name m p fr fs) s = some (ms, wss, W', s'))
     (hins : ins.map (fun f => (f.flags, f.recs)) = ms)
     (henc : encodeFrames C.σ (.struct col name dict kept oc fields) ins R ds = some (evss, ds', effss))
     (hs : Snd C (.struct name m p fr fs) (some R)) (hd : DictOk C s.wd ds.tdict) :
     ShowsAll C wss.flatten effss.flatten :=
-  frames_sound C col name dict kept oc fields hroot hnd frames ins m p fr fs s R ds ms wss W' s' evss ds' effss hnc hrun hins henc hs hd
+  frames_sound C col name dict kept oc fields hroot hnd frames ins m p fr fs s R ds ms wss W' s' evss ds' effss hrun hins henc hs hd
 
-/-- **api_stream_roundtrip_partial**: from `Init()` to the reader. For a root struct `rootName` of the
-    schema that is not a dictionary struct, any history of the covered calls over any frames: if
+/-- **api_stream_roundtrip**: from `Init()` to the reader. For a root struct `rootName` of the
+    schema that is not a dictionary struct, any history of calls over any frames: if
     `SpecEnc.encodeStream` accepts the values and marks that the model's Writes produce (with the fuels
     of its frames), then `Spec.decodeStream` decodes the bytes without error to records that show
     exactly the records written, in order. -/
-theorem api_stream_roundtrip_partial (C : Ctx) (rootName : String) (d : Option String) (fds : List Field)
+theorem api_stream_roundtrip (C : Ctx) (rootName : String) (d : Option String) (fds : List Field)
     (hfind : C.σ.find rootName = some (.struct d fds)) (hnd : C.isDictName rootName = false)
     (root : Node) (b : Build) (hmk : mkNode C.σ 200 [] (.ref rootName) {} = .ok (root, b))
     (frames : List (Nat × List Calls)) (ins : List FrameIn)
     (ms : List (Nat × List (St × Mk))) (wss : List (List AS)) (W' : AS) (s' : WSt) (bytes : Bytes) (effss : List (List St))
-    (hnc : ∀ f ∈ frames, ∀ cs ∈ f.2, Covered C cs)
     (hrun : runFrames C root frames (C.init (.ref rootName)) {} = some (ms, wss, W', s'))
     (hins : ins.map (fun f => (f.flags, f.recs)) = ms)
     (henc : encodeStream C.σ rootName ins = some (bytes, effss)) :
@@ -153,7 +161,7 @@ theorem api_stream_roundtrip_partial (C : Ctx) (rootName : String) (d : Option S
     have hsync := new_record_in_sync C (.ref rootName)
     rw [hinit] at hrun hsync
     exact frames_sound C col rootName d cnt oc nodes hok hnd frames ins 0 0 false fs0 {} _ _ ms wss W' s' evss es' effss'
-      hnc hrun hins hef hsync.2.2 (dictOk_nil C)
+      hrun hins hef hsync.2.2 (dictOk_nil C)
 
 /-! ## Non-vacuity: the schema `SpecEnc.Ex.σ` (struct with an optional primitive and an optional multimap,
     oneof with a struct alternative and a recursive array alternative, array of structs, multimap with
@@ -247,9 +255,9 @@ example : Snd Ex.C (Ex.C.init (.ref "Root")) (some Ex.R0) := (new_record_in_sync
 example : ∃ w', call Ex.C [.field 3] (.ensureLen 2) (Ex.C.init (.ref "Root")) = .ok w' ∧ Snd Ex.C w' (some Ex.R0) := by
   have h : ∃ w', call Ex.C [.field 3] (.ensureLen 2) (Ex.C.init (.ref "Root")) = .ok w' := ⟨_, by with_unfolding_all rfl⟩
   obtain ⟨w', h⟩ := h
-  exact ⟨w', h, call_preserves_sound Ex.C _ _ rfl _ w' _ (by with_unfolding_all rfl) h (new_record_in_sync Ex.C (.ref "Root")).2.2⟩
+  exact ⟨w', h, call_preserves_sound Ex.C _ _ _ w' _ (by with_unfolding_all rfl) h (new_record_in_sync Ex.C (.ref "Root")).2.2⟩
 
-/-- **api_marks_sound_partial** applies to the example: the effective records of the proved encoder
+/-- **api_marks_sound** applies to the example: the effective records of the proved encoder
     show the four records written -/
 theorem Ex.sound : ShowsAll Ex.C Ex.wss.flatten Ex.effss.flatten := by
   obtain ⟨W', s', hrun⟩ := Ex.run_ok
@@ -262,15 +270,15 @@ theorem Ex.sound : ShowsAll Ex.C Ex.wss.flatten Ex.effss.flatten := by
   have hsync := (new_record_in_sync Ex.C (.ref "Root")).2.2
   rw [hr] at hrun henc hok
   rw [hinit] at hrun hsync
-  exact api_marks_sound_partial Ex.C col "Root" none cnt oc nodes hok (by with_unfolding_all rfl) Ex.frames Ex.ins 0 0 false fs0 {}
-    Ex.R0 SpecEnc.Ex.ds0 Ex.ms Ex.wss W' s' evss ds' Ex.effss (coveredFrames_of_b _ _ (by with_unfolding_all rfl)) hrun (by with_unfolding_all rfl) henc hsync (dictOk_nil Ex.C)
+  exact api_marks_sound Ex.C col "Root" none cnt oc nodes hok (by with_unfolding_all rfl) Ex.frames Ex.ins 0 0 false fs0 {}
+    Ex.R0 SpecEnc.Ex.ds0 Ex.ms Ex.wss W' s' evss ds' Ex.effss hrun (by with_unfolding_all rfl) henc hsync (dictOk_nil Ex.C)
 
 /-- frame fuels as `decodeStream` derives them from the frame sizes (content bits + records + 1000) -/
 def Ex.insS : List FrameIn := (Ex.ms.zip [1514, 1378]).map (fun f => { flags := f.1.1, fuel := f.2, recs := f.1.2 })
 
 theorem Ex.stream_ok : (encodeStream Ex.C.σ "Root" Ex.insS).isSome = true := by decide +kernel
 
-/-- **api_stream_roundtrip_partial** applies to the example: the bytes of the stream decode, without
+/-- **api_stream_roundtrip** applies to the example: the bytes of the stream decode, without
     error, to four records that show the four records written -/
 theorem Ex.stream : ∃ bytes effss, encodeStream Ex.C.σ "Root" Ex.insS = some (bytes, effss) ∧
     (decodeStream Ex.C.σ "Root" bytes).error = none ∧
@@ -280,8 +288,8 @@ theorem Ex.stream : ∃ bytes effss, encodeStream Ex.C.σ "Root" Ex.insS = some 
   obtain ⟨W', s', hrun⟩ := Ex.run_ok
   have hfind : ∃ fds, Ex.C.σ.find "Root" = some (.struct none fds) := ⟨_, by with_unfolding_all rfl⟩
   obtain ⟨fds, hfind⟩ := hfind
-  exact ⟨bytes, effss, henc, api_stream_roundtrip_partial Ex.C "Root" none fds hfind (by with_unfolding_all rfl) Ex.root _ Ex.mk_ok
-    Ex.frames Ex.insS Ex.ms Ex.wss W' s' bytes effss (coveredFrames_of_b _ _ (by with_unfolding_all rfl)) hrun
+  exact ⟨bytes, effss, henc, api_stream_roundtrip Ex.C "Root" none fds hfind (by with_unfolding_all rfl) Ex.root _ Ex.mk_ok
+    Ex.frames Ex.insS Ex.ms Ex.wss W' s' bytes effss hrun
     (by with_unfolding_all rfl) henc⟩
 
 /-! write_sound on the first Write of the example (record 1 against the reader's initial value) -/
@@ -307,10 +315,183 @@ example : ∃ s2 evs ds' eff,
   obtain ⟨fs0, hinit⟩ := init_struct Ex.C "Root" none _ hfind
   have hsync := (new_record_in_sync Ex.C (.ref "Root")).2.2
   rw [hinit] at hcalls hsync
-  have hs1 := (applyCalls_snd Ex.C Ex.calls1 "Root" 0 0 false fs0 Ex.w1 (some Ex.R0) (covered_of_noCopy _ _ (noCopy_of_b _ (by with_unfolding_all rfl))) (by with_unfolding_all rfl) hcalls hsync).2
+  have hs1 := (applyCalls_snd Ex.C Ex.calls1 "Root" 0 0 false fs0 Ex.w1 (some Ex.R0) (by with_unfolding_all rfl) hcalls hsync).2
   obtain ⟨a1, a2, _, _, a5⟩ := write_sound Ex.C 1000 [] Ex.root Ex.w1 {} Ex.mk1 Ex.w2 s2 Ex.R0 SpecEnc.Ex.ds0 evs ds' eff hw he hs1
     (tree_ok Ex.C 200 (.ref "Root") Ex.root _ Ex.mk_ok) (envOk_nil Ex.C) (dictOk_nil Ex.C)
   exact ⟨s2, evs, ds', eff, hw, he, a1, a2, a5⟩
+
+/-! ## Non-vacuity with CopyFrom on the schema WITH a dictionary struct (`SpecEnc.Ex.σ`: `Root.f : Res`,
+    `Res` a dictionary struct holding a multimap). Six records in two frames:
+      1  built by setters, `f` = the shared frozen value `Ex.res1`
+      2  CopyFrom(srcA), `srcA.f` owned: the shared destination child is replaced by an owned copy
+         (`unshare`), the source is copied into it
+      3  (after a restart of dictionaries and codecs) CopyFrom(srcB), `srcB.f` shared: assigned by
+         reference into the owned destination child's place
+      4  EnsureLen + CopyFrom(srcA): `unshare` again
+      5  CopyFrom(srcC), `srcC.f` owned with another value: copy into the OWNED destination child - the
+         change inside the dictionary struct marks field `f` of the root
+      6  CopyFrom(srcC) once more: nothing changes inside `f`, it stays unmarked -/
+
+namespace ExC
+abbrev C : Ctx := Ex.C
+
+/-- an OWNED (unfrozen) `Res` value built through its own setters -/
+def resOwn (name : String) (v : Nat) : AS :=
+  match applyCalls C [([], .setPrim 0 (Ex.str name)), ([.field 1], .ensureLen 1), ([.field 1], .setKey 0 (Ex.str "ko")),
+      ([.field 1, .val 0], .setAlt 1 (.i (BitVec.ofNat 64 v)))] (C.init (.ref "Res")) with
+  | .ok a => a
+  | .error _ => .nil
+
+/-- a source record built by its setters (never written: all its marks are still set) -/
+def srcWith (a : Nat) (res : AS) : AS :=
+  match applyCalls C [
+      ([], .setPrim 0 (.i (BitVec.ofNat 64 a))),
+      ([], .setPrim 1 (Ex.str "src")),
+      ([.field 2], .setType 2),
+      ([.field 2, .alt 2], .setPrim 1 (.b true)),
+      ([.field 3], .ensureLen 1),
+      ([], .setPresent 4),
+      ([.field 4], .ensureLen 1),
+      ([.field 4], .setKey 0 (Ex.str "k")),
+      ([], .setObj 5 res),
+      ([], .setPrim 6 (.f 1#64))] (C.init (.ref "Root")) with
+  | .ok a => a
+  | .error _ => .nil
+
+def srcA : AS := srcWith 42 (resOwn "own" 3)
+def srcB : AS := srcWith 43 Ex.res1
+def srcC : AS := srcWith 42 (resOwn "own" 4)
+
+def frames : List (Nat × List Calls) :=
+  [(0, [Ex.calls1, [([], .copyFrom srcA)]]),
+   (5, [[([], .copyFrom srcB)], [([.field 3], .ensureLen 2), ([], .copyFrom srcA)], [([], .copyFrom srcC)],
+        [([], .copyFrom srcC)]])]
+
+def run := runFrames C Ex.root frames (C.init (.ref "Root")) {}
+def ms : List (Nat × List (St × Mk)) := match run with | some (ms, _, _, _) => ms | none => []
+def wss : List (List AS) := match run with | some (_, wss, _, _) => wss | none => []
+def ins : List FrameIn := ms.map (fun f => { flags := f.1, fuel := 10, recs := f.2 })
+
+def effss : List (List St) :=
+  match encodeFrames C.σ Ex.root ins Ex.R0 SpecEnc.Ex.ds0 with
+  | some (_, _, effss) => effss
+  | none => []
+
+-- (the copies are evaluated by the kernel: `decide +kernel`; the elaborator's `rfl` is too slow here)
+theorem run_some : run.isSome = true := by decide +kernel
+theorem run_ok : ∃ W' s', runFrames C Ex.root frames (C.init (.ref "Root")) {} = some (ms, wss, W', s') := by
+  obtain ⟨⟨a, b, c, d⟩, hr⟩ := Option.isSome_iff_exists.mp run_some
+  refine ⟨c, d, ?_⟩
+  have h1 : ms = a := by unfold ms; rw [hr]
+  have h2 : wss = b := by unfold wss; rw [hr]
+  rw [h1, h2]
+  exact hr
+theorem enc_some : (encodeFrames C.σ Ex.root ins Ex.R0 SpecEnc.Ex.ds0).isSome = true := by decide +kernel
+theorem enc_ok : ∃ evss ds', encodeFrames C.σ Ex.root ins Ex.R0 SpecEnc.Ex.ds0 = some (evss, ds', effss) := by
+  obtain ⟨⟨a, b, c⟩, hr⟩ := Option.isSome_iff_exists.mp enc_some
+  refine ⟨a, b, ?_⟩
+  have h1 : effss = c := by unfold effss; rw [hr]
+  rw [h1]
+  exact hr
+theorem ms_length : ms.length = 2 := by decide +kernel
+theorem ins_ms : ins.map (fun f => (f.flags, f.recs)) = ms := by
+  show (ms.map (fun f => ({ flags := f.1, fuel := 10, recs := f.2 } : FrameIn))).map (fun f => (f.flags, f.recs)) = ms
+  simp [List.map_map, Function.comp_def]
+
+/-- is field `f` (the dictionary struct) of the root record shared (frozen), and its own mask -/
+def fState : AS → Bool × Nat
+  | .struct _ _ _ _ fs => (match fs.getD 5 .nil with | .struct _ m _ fr _ => (fr, m) | _ => (false, 0))
+  | _ => (false, 0)
+end ExC
+
+-- six records in two frames; the root masks handed to the encoder: record 5 marks field `f` (bit 5)
+-- because of a change INSIDE the owned dictionary struct, record 6 leaves it unmarked
+example : ExC.ms.map (fun f => f.2.map (fun r => match r.2 with | .struct m _ => m | _ => 0)) =
+    [[0b1111111, 0b1111111], [0b1111111, 0b101001, 0b101000, 0b1000]] := by decide +kernel
+
+-- the dictionary struct child after each Write: shared, owned (unshared), shared, owned, owned, owned -
+-- always without marks
+example : ExC.wss.map (fun ws => ws.map ExC.fState) =
+    [[(true, 0), (false, 0)], [(true, 0), (false, 0), (false, 0), (false, 0)]] := by decide +kernel
+
+-- copyFrom_preserves_sound on the schema with a dictionary struct: CopyFrom(srcA) into the record
+-- that holds the shared frozen value (`unshare` + copy)
+example : ∃ w0 w', applyCalls ExC.C Ex.calls1 (ExC.C.init (.ref "Root")) = .ok w0 ∧
+    call ExC.C [] (.copyFrom ExC.srcA) w0 = .ok w' ∧ Snd ExC.C w' (some Ex.R0) := by
+  have h0 : ∃ w0, applyCalls ExC.C Ex.calls1 (ExC.C.init (.ref "Root")) = .ok w0 := ⟨_, by with_unfolding_all rfl⟩
+  obtain ⟨w0, h0⟩ := h0
+  have hfind : ∃ fds, Ex.C.σ.find "Root" = some (.struct none fds) := ⟨_, by with_unfolding_all rfl⟩
+  obtain ⟨fds, hfind⟩ := hfind
+  obtain ⟨fs0, hinit⟩ := init_struct Ex.C "Root" none _ hfind
+  have hsync := (new_record_in_sync Ex.C (.ref "Root")).2.2
+  have h0' := h0
+  rw [show ExC.C = Ex.C from rfl, hinit] at h0'
+  rw [hinit] at hsync
+  obtain ⟨⟨m1, p1, fs1, e1⟩, hs0⟩ := applyCalls_snd Ex.C Ex.calls1 "Root" 0 0 false fs0 w0 (some Ex.R0) (by with_unfolding_all rfl) h0' hsync
+  subst e1
+  have h1 : ∃ w', call ExC.C [] (.copyFrom ExC.srcA) (.struct "Root" m1 p1 false fs1) = .ok w' := by
+    simp only [call, applyAt, applyOp, Except.map]
+    exact ⟨_, rfl⟩
+  obtain ⟨w', h1⟩ := h1
+  exact ⟨_, w', h0, h1, copyFrom_preserves_sound ExC.C [] ExC.srcA _ w' _ (by with_unfolding_all rfl) h1 hs0⟩
+
+/-- **api_marks_sound** applies to the history with CopyFrom over dictionary structs -/
+theorem ExC.sound : ShowsAll ExC.C ExC.wss.flatten ExC.effss.flatten := by
+  obtain ⟨W', s', hrun⟩ := ExC.run_ok
+  obtain ⟨evss, ds', henc⟩ := ExC.enc_ok
+  have hfind : ∃ fds, Ex.C.σ.find "Root" = some (.struct none fds) := ⟨_, by with_unfolding_all rfl⟩
+  obtain ⟨fds, hfind⟩ := hfind
+  obtain ⟨col, cnt, oc, nodes, hr⟩ := mkNode_root_struct Ex.C.σ 199 "Root" none _ {} _ Ex.root hfind Ex.mk_ok
+  obtain ⟨fs0, hinit⟩ := init_struct Ex.C "Root" none _ hfind
+  have hok := tree_ok Ex.C 200 (.ref "Root") Ex.root _ Ex.mk_ok
+  have hsync := (new_record_in_sync Ex.C (.ref "Root")).2.2
+  rw [hr] at hrun henc hok
+  rw [show ExC.C = Ex.C from rfl, hinit] at hrun
+  rw [hinit] at hsync
+  exact api_marks_sound Ex.C col "Root" none cnt oc nodes hok (by with_unfolding_all rfl) ExC.frames ExC.ins 0 0 false fs0 {}
+    Ex.R0 SpecEnc.Ex.ds0 ExC.ms ExC.wss W' s' evss ds' ExC.effss hrun ExC.ins_ms henc hsync (dictOk_nil Ex.C)
+
+/-- frame fuels as `decodeStream` derives them from the frame sizes (content bits + records + 1000) -/
+def ExC.insS : List FrameIn := (ExC.ms.zip [1666, 1572]).map (fun f => { flags := f.1.1, fuel := f.2, recs := f.1.2 })
+
+theorem ExC.stream_ok : (encodeStream ExC.C.σ "Root" ExC.insS).isSome = true := by decide +kernel
+
+theorem ExC.insS_ms : ExC.insS.map (fun f => (f.flags, f.recs)) = ExC.ms := by
+  have h : (ExC.ms.zip [1666, 1572]).map (·.1) = ExC.ms := List.map_fst_zip (by rw [ExC.ms_length]; simp)
+  show ((ExC.ms.zip [1666, 1572]).map (fun f => ({ flags := f.1.1, fuel := f.2, recs := f.1.2 } : FrameIn))).map
+    (fun f => (f.flags, f.recs)) = ExC.ms
+  simp only [List.map_map, Function.comp_def]
+  exact h
+
+/-- **api_stream_roundtrip** applies: the bytes of the stream decode, without error, to six records that
+    show the six records written (five of them made by CopyFrom over a dictionary struct) -/
+theorem ExC.stream : ∃ bytes effss, encodeStream ExC.C.σ "Root" ExC.insS = some (bytes, effss) ∧
+    (decodeStream ExC.C.σ "Root" bytes).error = none ∧
+    (decodeStream ExC.C.σ "Root" bytes).records.map (·.2) = effss.flatten ∧
+    (decodeStream ExC.C.σ "Root" bytes).records.length = 6 ∧
+    ShowsAll ExC.C ExC.wss.flatten effss.flatten := by
+  obtain ⟨⟨bytes, effss⟩, henc⟩ := Option.isSome_iff_exists.mp ExC.stream_ok
+  obtain ⟨W', s', hrun⟩ := ExC.run_ok
+  have hfind : ∃ fds, Ex.C.σ.find "Root" = some (.struct none fds) := ⟨_, by with_unfolding_all rfl⟩
+  obtain ⟨fds, hfind⟩ := hfind
+  have h := api_stream_roundtrip Ex.C "Root" none fds hfind (by with_unfolding_all rfl) Ex.root _ Ex.mk_ok
+    ExC.frames ExC.insS ExC.ms ExC.wss W' s' bytes effss hrun ExC.insS_ms henc
+  refine ⟨bytes, effss, henc, h.1, h.2.1, ?_, h.2.2⟩
+  have hl := congrArg List.length h.2.1
+  rw [List.length_map] at hl
+  show (decodeStream Ex.C.σ "Root" bytes).records.length = 6
+  rw [hl]
+  have hw : ExC.wss.flatten.length = 6 := by decide +kernel
+  have := h.2.2
+  -- ShowsAll relates the two lists element by element: same length
+  have hlen : ∀ (ws : List AS) (rs : List St), ShowsAll ExC.C ws rs → rs.length = ws.length := by
+    intro ws
+    induction ws with
+    | nil => intro rs h; cases rs <;> simp [ShowsAll] at h ⊢
+    | cons w ws ih => intro rs h; cases rs with
+      | nil => simp [ShowsAll] at h
+      | cons r rs => simp only [ShowsAll] at h; simp [ih rs h.2]
+  rw [hlen _ _ this, hw]
 
 /-! ## Non-vacuity with CopyFrom: a schema without dictionary structs (struct with an optional primitive
     and an optional multimap, oneof with a struct alternative, array of structs, multimap with oneof
@@ -365,7 +546,6 @@ def effss : List (List St) :=
   | some (_, _, effss) => effss
   | none => []
 
-theorem noDict : C.NoDict := C.noDict_of_b (by with_unfolding_all rfl)
 theorem mk_ok : mkNode C.σ 200 [] (.ref "Root") {} = .ok (root, built.2) := by with_unfolding_all rfl
 theorem run_ok : ∃ W' s', runFrames C root frames (C.init (.ref "Root")) {} = some (ms, wss, W', s') :=
   ⟨_, _, by with_unfolding_all rfl⟩
@@ -376,14 +556,14 @@ end Ex2
 -- three records in two frames, the second record is the CopyFrom
 example : Ex2.ms.map (fun f => (f.1, f.2.length)) = [(0, 2), (5, 1)] := by with_unfolding_all rfl
 
--- copyFrom_preserves_sound_partial: CopyFrom of the source record into a new record
+-- copyFrom_preserves_sound: CopyFrom of the source record into a new record
 example : ∃ w', call Ex2.C [] (.copyFrom Ex2.src) (Ex2.C.init (.ref "Root")) = .ok w' ∧ Snd Ex2.C w' (some Ex2.R0) := by
   have h : ∃ w', call Ex2.C [] (.copyFrom Ex2.src) (Ex2.C.init (.ref "Root")) = .ok w' := ⟨_, by with_unfolding_all rfl⟩
   obtain ⟨w', h⟩ := h
-  exact ⟨w', h, copyFrom_preserves_sound_partial Ex2.C Ex2.noDict _ _ _ w' _ (by with_unfolding_all rfl) h
+  exact ⟨w', h, copyFrom_preserves_sound Ex2.C _ _ _ w' _ (by with_unfolding_all rfl) h
     (new_record_in_sync Ex2.C (.ref "Root")).2.2⟩
 
-/-- **api_marks_sound_partial** applies to a history with CopyFrom -/
+/-- **api_marks_sound** applies to a history with CopyFrom -/
 theorem Ex2.sound : ShowsAll Ex2.C Ex2.wss.flatten Ex2.effss.flatten := by
   obtain ⟨W', s', hrun⟩ := Ex2.run_ok
   obtain ⟨evss, ds', henc⟩ := Ex2.enc_ok
@@ -395,8 +575,8 @@ theorem Ex2.sound : ShowsAll Ex2.C Ex2.wss.flatten Ex2.effss.flatten := by
   have hsync := (new_record_in_sync Ex2.C (.ref "Root")).2.2
   rw [hr] at hrun henc hok
   rw [hinit] at hrun hsync
-  exact api_marks_sound_partial Ex2.C col "Root" none cnt oc nodes hok (by with_unfolding_all rfl) Ex2.frames Ex2.ins 0 0 false fs0 {}
-    Ex2.R0 Ex2.ds0 Ex2.ms Ex2.wss W' s' evss ds' Ex2.effss (coveredFrames_of_b _ _ (by with_unfolding_all rfl)) hrun
+  exact api_marks_sound Ex2.C col "Root" none cnt oc nodes hok (by with_unfolding_all rfl) Ex2.frames Ex2.ins 0 0 false fs0 {}
+    Ex2.R0 Ex2.ds0 Ex2.ms Ex2.wss W' s' evss ds' Ex2.effss hrun
     (by with_unfolding_all rfl) henc hsync (dictOk_nil Ex2.C)
 
 /-- frame fuels as `decodeStream` derives them from the frame sizes (content bits + records + 1000) -/
@@ -404,7 +584,7 @@ def Ex2.insS : List FrameIn := (Ex2.ms.zip [1314, 1169]).map (fun f => { flags :
 
 theorem Ex2.stream_ok : (encodeStream Ex2.C.σ "Root" Ex2.insS).isSome = true := by decide +kernel
 
-/-- **api_stream_roundtrip_partial** applies to the example: the bytes of the stream decode, without
+/-- **api_stream_roundtrip** applies to the example: the bytes of the stream decode, without
     error, to three records that show the three records written (the second one made by CopyFrom) -/
 theorem Ex2.stream : ∃ bytes effss, encodeStream Ex2.C.σ "Root" Ex2.insS = some (bytes, effss) ∧
     (decodeStream Ex2.C.σ "Root" bytes).error = none ∧
@@ -414,8 +594,8 @@ theorem Ex2.stream : ∃ bytes effss, encodeStream Ex2.C.σ "Root" Ex2.insS = so
   obtain ⟨W', s', hrun⟩ := Ex2.run_ok
   have hfind : ∃ fds, Ex2.C.σ.find "Root" = some (.struct none fds) := ⟨_, by with_unfolding_all rfl⟩
   obtain ⟨fds, hfind⟩ := hfind
-  exact ⟨bytes, effss, henc, api_stream_roundtrip_partial Ex2.C "Root" none fds hfind (by with_unfolding_all rfl) Ex2.root _ Ex2.mk_ok
-    Ex2.frames Ex2.insS Ex2.ms Ex2.wss W' s' bytes effss (coveredFrames_of_b _ _ (by with_unfolding_all rfl)) hrun
+  exact ⟨bytes, effss, henc, api_stream_roundtrip Ex2.C "Root" none fds hfind (by with_unfolding_all rfl) Ex2.root _ Ex2.mk_ok
+    Ex2.frames Ex2.insS Ex2.ms Ex2.wss W' s' bytes effss hrun
     (by with_unfolding_all rfl) henc⟩
 
 -- written_values: the states the Writes leave carry the values handed to the encoder
